@@ -242,7 +242,8 @@ func (c16) Case(c *core.Ctx) {
 		// pad so that the compact XML is exactly a multiple of 4096 bytes (buffer boundaries in the Writer forms)
 		content["pad"] = "p"
 		if x0, e0 := mxj.Map(content).Xml(); e0 == nil {
-			content["pad"] = strings.Repeat("p", 1+(4096-len(x0)%4096)%4096)
+			blk := autoBlock(r)
+			content["pad"] = strings.Repeat("p", 1+(blk-len(x0)%blk)%blk)
 			c.Count("output-multiple-of-4096")
 		}
 	}
